@@ -72,6 +72,8 @@ def cress(rs):
             t = '(rok "%s" %s %s)' % (r["q"], ccfg(r.get("cfg"), True), t)
         elif r["res"] == "missing":
             t = '(rmiss "%s" %s)' % (r.get("miss", ""), t)
+        elif r["res"] == "cycle":
+            t = '(rcyc "%s" %s)' % (r.get("miss", ""), t)
         elif r["res"] == "crash":
             t = "(rloop %s)" % t
         else:
@@ -143,9 +145,10 @@ def run(ck):
     ck.trusted = ["Coq 8.16.1 kernel (coqc, vm_compute)", "Go overlay harness props/C18/harness/targets_verif_test.go "
                   "(independent resolver on the raw JSON, by key)", "go/ast extraction props/C18/harness/fieldtable/main.go",
                   "hand-written model coq/theories/C18/Model.v tied by correspondence", "encoding/json (upstream)"]
-    ck.assumptions = ["a description defines a scalar when its value is not the zero value (empty string / false): this is how mergeConfig reads it",
+    ck.assumptions = ["resolve true (the loader with the visiting chain) is the model compared with the code; resolve false is the loader before the fix",
+                      "a description defines a scalar when its value is not the zero value (empty string / false): this is how mergeConfig reads it",
                       "JSON keys are matched exactly (encoding/json also accepts other capitalisation; no shipped file uses one)",
-                      "a stack overflow of the real resolver is observed in a child process with debug.SetMaxStack(1 MiB)"]
+                      "cyclic requests run in a child process with debug.SetMaxStack(1 MiB) so that a regression to unbounded recursion is observed, not fatal"]
     ck.coq_build("C18")
     ck.coq_props("LLGoV.C18.Props", "theories/C18/Props.v")
 
@@ -175,15 +178,10 @@ def run(ck):
 
     def explained(name, r):
         """True if the record has a model counterpart (Ok / ErrMissing / OutOfFuel)"""
-        if r["res"] in ("ok", "missing", "crash") and plain(r["q"]) and plain(r.get("miss", "")):
-            return True
-        # an error that names no missing file: fine for a cyclic request (that is what the property
-        # asks for; the finding is then not reproduced), otherwise unexplained
-        if r.get("exp") == "cycle" and r["res"] == "err-other":
-            classes["cycle:error-returned"] += 1
-        else:
-            ck.correspondence_broken("C18.Model/" + name, {"unexplained result": r["res"], "q": r["q"],
-                                                           "err": r.get("err"), "what": r.get("what")})
+        if r["res"] in ("ok", "missing", "cycle", "crash") and plain(r["q"]) and plain(r.get("miss", "")):
+            return True     # crash (stack overflow) is OutOfFuel in the model: a mismatch with the fixed loader
+        ck.correspondence_broken("C18.Model/" + name, {"unexplained result": r["res"], "q": r["q"],
+                                                       "err": r.get("err"), "what": r.get("what")})
         return False
 
     def compare(name, header, groups, dbterm, shard):
@@ -193,7 +191,7 @@ def run(ck):
         for g in groups:
             terms.append("mkcase %s %s %s" % (dbterm(g), cstrs([r["q"] for r in g]), cress(g)))
             total += len(g)
-        bad = ck.coq_mismatches(header, terms, "(fun x => map (resolve 40 (fst x)) (snd x))", "list_eqb res_eqb",
+        bad = ck.coq_mismatches(header, terms, "(fun x => map (resolve true 40 (fst x)) (snd x))", "list_eqb res_eqb",
                                 "c18_" + name, shard=shard)
         if bad:
             g = groups[bad[0]]
